@@ -944,15 +944,28 @@ class C17(Prop):
         # local solver: krylov observed <= 1e-13 (allowance 1e-6 per site and step); IVP solvers at ivp_rtol=1e-9 as calibrated in C09
         tol_solver = (1e-6 * sysm.n if sv == "krylov" else 3e-4) * nstep * nrm * max(1.0, t)
         split = 0.0 if sysm.n <= 2 else 0.5 * nstep * dt ** 3 * nrm
-        if use_dm:
-            # MpDm.from_mps has the bonds of the pure state: the projected dynamics is not the exact one.  Rigorous bound instead:
-            # every sub-step moves the state by at most ||H|| dt/2 and a step has 2(2n-3) of them; dm runs use dt = 1e-6 so
-            # that the bound is sharp enough to see a wrong leg permutation (O(1)).
+        # "full bonds" is verified, not assumed (Mps.random gives product states in some sectors): every bond of the initial
+        # state must be as large as the Schmidt rank of a generic vector of the sector
+        sufficient = not use_dm
+        if sufficient and sysm.n > 2:
+            g = np.random.default_rng(case["rng"]).standard_normal(sysm.D) * sysm.mask(sysm.q)
+            full = evo.schmidt_ranks(g, sysm.dims)
+            sufficient = all(int(b) >= f for b, f in zip(list(mps.bond_dims)[1:-1], full))
+        r.classes.append("evo.full_bonds" if sufficient else "evo.small_bonds")
+        if not sufficient:
+            # MpDm.from_mps (bonds of the pure state) or a state with incomplete bonds: the projected dynamics is not the exact
+            # one.  Rigorous bound instead: every sub-step moves the state by at most ||H|| dt/2 and a step has 2(2n-3) of them;
+            # sharp enough to see a wrong leg permutation / sign (O(1)) for the dt = 1e-6 runs, not used for larger steps.
             split = 2.0 * sysm.n * t * nrm
-        what = f"(dt={dt}, steps={nstep}, sites={sysm.n}, order {order_st}, jw={sysm.fermi}, swaps {log}, dm={use_dm}, {sv})"
-        r.check_close(f"evo.reference_vs_exact.{sv}", ref, exact, tol_solver + split, "run without OFS vs exact propagator " + what)
-        r.check_close(pre + f"evo.ofs_vs_exact.{sv}", got, exact, tol_solver + split, "OFS run (un-permuted) vs exact propagator " + what)
-        r.check_close(pre + f"evo.ofs_vs_plain.{sv}", got, ref, 2 * (tol_solver + split), "OFS run (un-permuted) vs run without OFS, same step " + what)
+        what = f"(dt={dt}, steps={nstep}, sites={sysm.n}, order {order_st}, jw={sysm.fermi}, swaps {log}, dm={use_dm}, {sv}, full={sufficient})"
+        if sufficient or t <= 1e-4:
+            r.check_close(f"evo.reference_vs_exact.{sv}", ref, exact, tol_solver + split, "run without OFS vs exact propagator " + what)
+            r.check_close(pre + f"evo.ofs_vs_exact.{sv}", got, exact, tol_solver + split, "OFS run (un-permuted) vs exact propagator " + what)
+            r.check_close(pre + f"evo.ofs_vs_plain.{sv}", got, ref, 2 * (tol_solver + split), "OFS run (un-permuted) vs run without OFS, same step " + what)
+            if nsw:
+                r.classes.append("evo.swapped_and_compared")
+        else:
+            r.classes.append("evo.energy_only")
         if not use_dm:
             e0 = float(np.real(psi0.conj() @ (sysm.H @ psi0)))
             e1 = float(np.real(got.conj() @ (sysm.H @ got)))
